@@ -4,6 +4,9 @@ NOTES = ("Every check rebuilds what it needs from /repo's working tree into a pr
          "known_findings.json lists genuine defects (open / fixed).")
 
 ENGINES = [
+    dict(name="SCHED", path="engines/sched", serves_properties=["C09", "C02", "C08"],
+         kind_free_text="controlled scheduler over the real pthread call sites (force-included shim), stateless DFS explorer with one forked "
+                        "process per execution, shared visited table (state-hash pruning), iterated preemption bound, 16 worker processes"),
     dict(name="STR", path="engines/str/canon_enum.c", serves_properties=["C18"],
          kind_free_text="in-process exhaustive enumerator of all strings up to a length bound against an independent specification"),
 ]
@@ -15,3 +18,13 @@ chk("C18", "STR", "exploration",
     "The functions only distinguish '/', '.' and 'other', so the small alphabet covers every behaviour class up to the length bound.",
     "Trusts: ASan, the 20-line specification in canon_enum.c. Strings longer than the bound are only covered by the periodic family.",
     "bounded exhaustive enumeration of inputs against a reference model", "3/C18")
+
+chk("C09", "SCHED", "model_checking",
+    "Stateless model checking of the implementation: lib/util/src/threadpool.c is compiled unmodified with its pthread calls routed to a "
+    "controlled scheduler; all interleavings at mutex/condvar/join granularity (plus a yield inside the callback, plus 0..2 spurious wake-ups) "
+    "of 1..3 workers x 1..5 items x every failing position x 7 driver shapes are enumerated with preemption bounds 0,1,2 and then completely "
+    "(small configurations) or to bound 2/3 (largest). Oracles: exactly-once, FIFO hand-back, per-worker context exclusivity, failure status "
+    "surfaces, every call returns (deadlock/livelock detection), ASan clean. A free-running ThreadSanitizer pass complements it for unsynchronised accesses.",
+    "Sync-operation granularity; memory-model effects below that only via TSan (sampling). State-hash pruning cross-validated against un-hashed "
+    "bounded exploration on every run. Trusts the scheduler shim (engines/sched/vs.c).",
+    "stateless model checking with preemption bounding and state-hash pruning (CHESS style) on the real code", "2.2, 3/C09")
